@@ -87,6 +87,8 @@ func emit(v interface{}) {
 	if err != nil {
 		b = []byte(fmt.Sprintf(`{"type":"harness_error","err":%q}`, err.Error()))
 	}
+	// a leading newline: third-party code (the cockpit spinner) may have left a partial line on stdout
+	outW.WriteByte('\n')
 	outW.Write(b)
 	outW.WriteByte('\n')
 	outW.Flush()
